@@ -22,8 +22,13 @@ use crate::util::s;
 
 const HOST: &str = "http://example.com";
 
+/// second host of the project: atoms "@2/x" are http://two.example.com/x
+const HOST2: &str = "http://two.example.com";
 fn abs(u: &str) -> String {
-    if u.starts_with('/') { format!("{}{}", HOST, u) } else { u.to_string() }
+    if let Some(p) = u.strip_prefix("@2") { format!("{}{}", HOST2, p) } else if u.starts_with('/') { format!("{}{}", HOST, u) } else { u.to_string() }
+}
+fn host_and_path(u: &str) -> (&'static str, String) {
+    match u.strip_prefix("@2") { Some(p) => ("two.example.com", p.to_string()), None => ("example.com", u.to_string()) }
 }
 
 fn run_loop(case: &Value) -> Vec<Value> {
@@ -34,15 +39,18 @@ fn run_loop(case: &Value) -> Vec<Value> {
         if code == 200 {
             continue; // no rule: the backend answers
         }
-        // relative targets for /a, absolute for the others: both must be followed
+        // host-less targets for the "/a" URLs when the target is on the SAME host (they are joined to the URL of the hop that
+        // answers them), absolute for the others: both must be followed
         let to = s(e, "to");
-        let target = if u == "/a" && to.starts_with('/') { to.clone() } else { abs(&to) };
-        rules.push(serde_json::from_value(json!({"id": format!("g{}", u), "rank": 0, "source": {"host": "example.com", "path": u},
+        let (shost, spath) = host_and_path(u);
+        let same_host = (to.starts_with('/') || to.starts_with("@2")) && host_and_path(&to).0 == shost;
+        let target = if spath == "/a" && same_host { host_and_path(&to).1 } else { abs(&to) };
+        rules.push(serde_json::from_value(json!({"id": format!("g{}", u), "rank": 0, "source": {"host": shost, "path": spath},
             "status_code": code, "target": target})).unwrap());
     }
     let example = Example { url: abs(&s(case, "start")), method: Some(s(case, "method")), headers: None, datetime: None, ip_address: None,
         response_status_code: None, must_match: true, unit_ids_applied: None };
-    let domains = if case["domains"].as_bool().unwrap_or(false) { vec!["example.com".to_string()] } else { vec![] };
+    let domains = if case["domains"].as_bool().unwrap_or(false) { vec!["example.com".to_string(), "two.example.com".to_string()] } else { vec![] };
     // the redirect-chain analysis is reached through the explain analysis (its type is not exported)
     let out = ExplainRequestOutput::create_result_without_project(ExplainRequestInput { router_config: config, example, rules, max_hops: case["maxh"].as_u64().unwrap() as u8, project_domains: domains });
     let rl = match out { Ok(o) => serde_json::to_value(&o).unwrap()["redirection_loop"].clone(), Err(_) => json!("error") };
@@ -51,7 +59,10 @@ fn run_loop(case: &Value) -> Vec<Value> {
     if let Some(hops) = rl.get_mut("hops").and_then(|h| h.as_array_mut()) {
         for hp in hops.iter_mut() {
             let u = hp["url"].as_str().unwrap_or("").to_string();
-            hp["url"] = json!(u.strip_prefix(HOST).filter(|r| r.starts_with('/')).map(|r| r.to_string()).unwrap_or(u));
+            hp["url"] = json!(match u.strip_prefix(HOST2).filter(|r| r.starts_with('/')) {
+                Some(r) => format!("@2{}", r),
+                None => u.strip_prefix(HOST).filter(|r| r.starts_with('/')).map(|r| r.to_string()).unwrap_or(u),
+            });
         }
     }
     vec![json!({"ev": "loop", "g": case["g"], "domains": case["domains"], "maxh": case["maxh"], "start": case["start"], "method": case["method"], "out": rl})]
@@ -153,7 +164,8 @@ fn pipeline_of(fresh: &Router<Rule>, config: &RouterConfig, example: &Example) -
                 body = b1;
             }
             let log = a.should_log_request(true, fin, None);
-            json!({"resp": {"status": fin, "headers": headers, "body": String::from_utf8_lossy(&body), "log": log},
+            let applied = sorted(a.get_applied_rule_ids().iter().cloned().collect());
+            json!({"resp": {"status": fin, "headers": headers, "body": String::from_utf8_lossy(&body), "log": log}, "applied": applied,
                    "request_time_with_code": request_time && example.response_status_code.is_some(),
                    "trace_action_equal": h(&last) == h(&direct), "ta_dbg": if h(&last) != h(&direct) { json!([last, direct]) } else { json!([]) }})
         }
@@ -203,7 +215,8 @@ pub fn run(case: &Value) -> Vec<Value> {
                     let pipeline = pipeline_of(&fresh, &config, &example);
                     let resp_of = |x: &Value| json!({"status": x["status"], "headers": x["headers"], "body": x["body"], "log": x["log"]});
                     let dbg = if h(&pj) != h(&sa) || h(&sa) != h(&sr) { json!([pj, sa, sr]) } else { json!([]) };
-                    items.push(json!({"q": q, "dbg": dbg, "explain": [h(&pj), h(&sa), h(&sr)], "resp_explain": h(&resp_of(&pj)), "resp_pipeline": if pipeline.is_object() { h(&pipeline["resp"]) } else { h(&json!("error")) },
+                    items.push(json!({"q": q, "dbg": dbg, "explain": [h(&pj), h(&sa), h(&sr)], "resp_explain": h(&resp_of(&pj)),
+                                      "applied_explain": pj["rules"], "applied_pipeline": pipeline.get("applied").cloned().unwrap_or(pj["rules"].clone()), "resp_pipeline": if pipeline.is_object() { h(&pipeline["resp"]) } else { h(&json!("error")) },
                                       "code": code.unwrap_or(0), "request_time_with_code": pipeline.get("request_time_with_code").cloned().unwrap_or(json!(false)),
                                       "trace_action_equal": pipeline.get("trace_action_equal").cloned().unwrap_or(json!(true)), "ta_dbg": pipeline.get("ta_dbg").cloned().unwrap_or(json!([])), "status": pj["status"], "rules": pj["rules"]}));
                 }
@@ -242,7 +255,26 @@ pub fn run(case: &Value) -> Vec<Value> {
                                                  "request_time_with_code": pl.get("request_time_with_code").cloned().unwrap_or(json!(false))}));
                     }
                 }
-                evs.push(json!({"ev": "analyses", "o": {"op": "fork", "h": 2, "ids": o["ids"]}, "items": items,
+                // ---- the draft is edited again: the impact of ANOTHER version of the changed rule (same id), still under the same action;
+                // the version sitting in the change-set must not survive next to it
+                let mut impact_reedit = json!([]);
+                if let Some((rule, action)) = cs.added.first().map(|r| (r.clone(), "add")).or_else(|| cs.updated.first().map(|r| (r.clone(), "update"))) {
+                    let this = serde_json::to_string(&rule).unwrap();
+                    if let Some(v2) = pool.iter().find(|r| r.id == rule.id && serde_json::to_string(r).unwrap() != this) {
+                        // the examples written for the earlier version stay with the rule when it is edited
+                        let mut v2 = v2.clone();
+                        let mut exs = v2.examples.clone().unwrap_or_default();
+                        exs.extend(rule.examples.clone().unwrap_or_default());
+                        v2.examples = Some(exs);
+                        let v2 = &v2;
+                        let im = |o: &ImpactOutput| { let v = serde_json::to_value(o).unwrap(); json!(v["impacts"].as_array().unwrap().iter().map(project_item).collect::<Vec<Value>>()) };
+                        let ip = ImpactOutput::from_impact_project(ImpactProjectInput { max_hops: 3, with_redirection_loop: true, domains: vec![], rule: v2.clone(), action: action.to_string(), change_set: cs.clone() }, existing_arc.clone());
+                        let is = ImpactOutput::create_result(ImpactInput { router_config: config.clone(), max_hops: 3, with_redirection_loop: true, domains: vec![], rule: v2.clone(), action: action.to_string(), rules: result_rules.clone() });
+                        let ir = ImpactOutput::create_result(ImpactInput { router_config: config.clone(), max_hops: 3, with_redirection_loop: true, domains: vec![], rule: v2.clone(), action: action.to_string(), rules: reversed.clone() });
+                        impact_reedit = json!([h(&im(&ip)), h(&im(&is)), h(&im(&ir))]);
+                    }
+                }
+                evs.push(json!({"ev": "analyses", "o": {"op": "fork", "h": 2, "ids": o["ids"]}, "items": items, "impact_reedit": impact_reedit,
                                 "test_examples": [h(&te(&te_p)), h(&te(&te_s)), h(&te(&te_r))], "te": te(&te_p),
                                 "unit_ids": [h(&ui(&ui_p)), h(&ui(&ui_s)), h(&ui(&ui_r))], "impact": impact, "impact_items": impact_items,
                                 "existing_len_after": existing_arc.len(), "existing_len_before": existing.len()}));
